@@ -402,6 +402,12 @@ impl Probe {
 
 /// A well-behaved status exchange; gives up `patience` after it started.
 async fn probe(label: &str, addr: SocketAddr, proxy: bool, salt: u64, patience: Duration) -> Probe {
+    let src: Option<SocketAddr> = if proxy { Some(format!("198.51.100.{}:{}", 1 + salt % 200, 50000 + salt % 10000).parse().expect("addr")) } else { None };
+    probe_from(label, addr, src, salt, patience).await
+}
+
+/// `src`: the source address announced in the PROXY header (none: no header is sent).
+async fn probe_from(label: &str, addr: SocketAddr, src: Option<SocketAddr>, salt: u64, patience: Duration) -> Probe {
     let started = Instant::now();
     let mut p = Probe { label: label.to_string(), started, connect_error: None, connected: None, response: None, pong: None, clientbound: vec![] };
     let end = match tokio::time::timeout(patience, TcpEnd::connect(addr, None)).await {
@@ -416,8 +422,7 @@ async fn probe(label: &str, addr: SocketAddr, proxy: bool, salt: u64, patience: 
         }
     };
     p.connected = Some(Instant::now());
-    if proxy {
-        let src: SocketAddr = format!("198.51.100.{}:{}", 1 + salt % 200, 50000 + salt % 10000).parse().expect("addr");
+    if let Some(src) = src {
         end.send(&if salt % 2 == 0 { tcp::proxy_v1(src, addr) } else { tcp::proxy_v2(src, addr) });
     }
     let c0 = Instant::now();
@@ -829,14 +834,27 @@ async fn run(cli: &Cli, report: &mut Report) {
 /// A client address that is over its rate limit keeps hammering the listener: refusing it must be
 /// cheap. Probes from other addresses are measured meanwhile.
 async fn limited_flood_family(cli: &Cli, report: &mut Report, late: &LateLog) {
-    let rounds = cli.scaled(if cli.tier == Tier::Thorough { 4 } else { 1 });
+    // the over-limit address and the well-behaved ones are strangers (0), IPv4-mapped IPv6 addresses
+    // of different hosts (1), or neighbours in one IPv6 /64 (2)
+    let rounds = cli.scaled(if cli.tier == Tier::Thorough { 6 } else { 3 });
     for round in 0..rounds {
+        let flavour = round % 3;
+        let flood_src: SocketAddr = ["203.0.113.66:4000", "[::ffff:203.0.113.66]:4000", "[2001:db8:7::66]:4000"][flavour as usize].parse().expect("addr");
+        let probe_src = move |k: u64| -> SocketAddr {
+            match flavour {
+                0 => format!("198.51.100.{}:{}", 1 + k % 200, 50000 + k % 10000),
+                1 => format!("[::ffff:198.51.100.{}]:{}", 1 + k % 200, 50000 + k % 10000),
+                _ => format!("[2001:db8:7::{:x}]:{}", 0x100 + k % 200, 50000 + k % 10000),
+            }
+            .parse()
+            .expect("addr")
+        };
         let direct = {
             let _g = START.lock().await;
             start_direct(DirectSpec { timeout: SERVER_TIMEOUT, limiter: Some((Duration::from_secs(3600), 2)), proxy: Some((true, true)), ..Default::default() }).await
         };
         let addr = direct.addr;
-        let control = probe("control", addr, true, 9_000 + round, BOUND).await;
+        let control = probe_from("control", addr, Some(probe_src(9_000 + round)), 9_000 + round, BOUND).await;
         if !control.served_within_bound() {
             report.inconclusive("rate-limited flood: the control probe was not served");
             direct.stop.cancel();
@@ -847,7 +865,7 @@ async fn limited_flood_family(cli: &Cli, report: &mut Report, late: &LateLog) {
         for t in 0..12u64 {
             let stop = stop.clone();
             tasks.push(tokio::spawn(async move {
-                let src: SocketAddr = "203.0.113.66:4000".parse().expect("addr");
+                let src: SocketAddr = flood_src;
                 let mut refused = 0u64;
                 while !stop.load(Ordering::Relaxed) {
                     if let Ok(end) = TcpEnd::connect(addr, None).await {
@@ -867,7 +885,7 @@ async fn limited_flood_family(cli: &Cli, report: &mut Report, late: &LateLog) {
         for (i, at_ms) in [1_000u64, 2_500, 4_000].into_iter().enumerate() {
             tokio::time::sleep(Duration::from_millis(at_ms.saturating_sub(if i == 0 { 0 } else { [1_000u64, 2_500][i - 1] }))).await;
             let t_a = Instant::now();
-            let p = probe("during-flood", addr, true, 9_100 + round * 10 + i as u64, BOUND + Duration::from_secs(10)).await;
+            let p = probe_from("during-flood", addr, Some(probe_src(9_100 + round * 10 + i as u64)), 9_100 + round * 10 + i as u64, BOUND + Duration::from_secs(10)).await;
             probes.push((p, late.worst_between(t_a, Instant::now())));
         }
         stop.store(true, Ordering::Relaxed);
@@ -876,10 +894,10 @@ async fn limited_flood_family(cli: &Cli, report: &mut Report, late: &LateLog) {
             refused += t.await.unwrap_or(0);
         }
         direct.stop.cancel();
-        report.eval(Some(&format!("rate-limited-flood/{round}")));
+        report.eval(Some(&format!("rate-limited-flood/{}/{round}", ["strangers", "ipv4-mapped", "same-ipv6-/64"][flavour as usize])));
         report.count("rate-limited flood: connections refused without a byte", refused);
         let lat: Vec<Option<f64>> = probes.iter().map(|(p, _)| p.latency().map(|d| d.as_secs_f64() * 1000.0)).collect();
-        let detail = json!({"round": round, "refused_connections": refused, "probe_latency_ms": lat});
+        let detail = json!({"round": round, "flood_source": flood_src.to_string(), "probe_source_example": probe_src(0).to_string(), "refused_connections": refused, "probe_latency_ms": lat});
         report.sample(json!({"case": "rate-limited flood from one over-limit address, probes from other addresses", "observed": detail}));
         for (p, worst) in &probes {
             report.count("probes measured", 1);
@@ -887,7 +905,7 @@ async fn limited_flood_family(cli: &Cli, report: &mut Report, late: &LateLog) {
                 if *worst > BOUND / 2 {
                     report.inconclusive(&format!("rate-limited flood: harness lateness {worst:?} during a probe, verdict void"));
                 } else {
-                    report.violation("probe-delayed/proxy-on/rate-limited-flood", &format!("a well-behaved client was not served within {BOUND:?} while another address kept being refused by the rate limiter"), detail.clone());
+                    report.violation(&format!("probe-delayed/proxy-on/rate-limited-flood{}", ["", "/ipv4-mapped", "/same-ipv6-64"][flavour as usize]), &format!("a well-behaved client was not served within {BOUND:?} while another address kept being refused by the rate limiter"), detail.clone());
                 }
             }
         }
